@@ -126,4 +126,18 @@ PROPS = {
                       "pdata Map/Slice semantics (Range order = insertion order, Put overwrites in place, CopyTo replaces) modelled as list operations"],
         assumptions=["attribute maps have distinct keys (pdata invariant)", "list mode: a renamed listed key does not collide with another key of the same map (visible hypothesis of C17_structure_list)"],
     ),
+    "C08": dict(
+        runs=[
+            dict(harness="codec", name="gen", phase="gen", args=lambda tier, seed, casedir, coq: ["gen", "--out", casedir]),
+            dict(harness="codec", name="robust",
+                 args=lambda tier, seed, casedir, coq: ["robust", "--n", str(q(tier, 300, 5000)), "--seed", str(seed), "--tier", tier], timeout=3000),
+        ],
+        rule="gen: every explicit panic(...) call of the producer/consumer packages extracted with go/ast from the current source (must be within the classified baseline); "
+             "robust: histories of 1-5 generated batches (traces, logs, metrics, or interleaved) with degenerate shapes (all-zero / empty bucket lists and bounds, empty metrics, "
+             "unset values, empty keys, nested values, boundary numerics) on one producer, each outcome classified ok/error/panic(site); boundary: 65535 and 65537 attribute-bearing spans, "
+             "65537 log records, 65537 metrics, a warm producer given 65537 resources and then a valid batch, the dictionary reset regime at an 8-bit limit",
+        trusted_base=["the encoders' column appends are not modelled statement by statement (result classes are the tie); the panic-site extractor (go/ast) and the classification by rule in Stream/PanicBaseline.v",
+                      "implicit panics (nil dereference, index, type assertion) are found by the harness only"],
+        assumptions=["optional-field discovery needs at most 3 rebuilds on the prototype schemas (depth of optional nesting), leaving 2 of the 5 allowed retries to dictionary events"],
+    ),
 }
